@@ -9,7 +9,8 @@ namespace vh {
 
 struct DocOpts {
     GenCfg cfg;
-    bool allow_invalid = true;  // mutations and raw bytes
+    bool allow_invalid = true;  // mutations
+    bool allow_raw = true;      // raw bytes (corpus files, fuzzer bytes, enumerator witnesses); harnesses that need valid documents skip invalid ones
     bool allow_chain = true;
     bool force_object_root = false;
     bool depth_sufficient = false;  // choose max_depth so that the generated tree always fits
@@ -32,7 +33,7 @@ inline unsigned doc_mode(uint8_t b, const DocOpts &o) {
     if (m <= 2) return DM_TREE;
     if (m <= 4) return o.allow_invalid ? DM_MUT : DM_TREE;
     if (m == 5) return o.allow_chain ? DM_CHAIN : DM_TREE;
-    return o.allow_invalid ? DM_RAW : DM_TREE;
+    return o.allow_raw ? DM_RAW : DM_TREE;
 }
 
 // object levels the library needs for this tree (root object = 1; under an array root the root takes one)
@@ -90,8 +91,17 @@ inline DocCase decode_doc(Src &s, const DocOpts &o) {
         break;
     }
     default: {
+        // raw bytes; unless the selector is 0 (corpus files, enumerators) the delimiters are patched in so that
+        // most raw cases get past init's first/last-byte test
+        uint8_t fix = s.u8();
         size_t len = s.u16();
         c.doc = s.take(len);
+        if (fix % 4 != 0) {
+            uint8_t b = c.array_root ? 0x42 : 0x40, e = c.array_root ? 0x43 : 0x41;
+            if (c.doc.size() < 2) c.doc.resize(2);
+            c.doc.front() = b;
+            c.doc.back() = e;
+        }
         break;
     }
     }
@@ -105,11 +115,12 @@ inline DocCase decode_doc(Src &s, const DocOpts &o) {
 
 // header for a raw document: mode RAW, root kind and depth chosen by `variant`
 inline size_t wrap_raw_doc(const uint8_t *doc, size_t n, unsigned variant, uint8_t *out, size_t cap) {
-    if (n > 0xffff || cap < n + 5) return 0;
+    if (n > 0xffff || cap < n + 6) return 0;
     size_t k = 0;
     out[k++] = 6;                                  // DM_RAW
     out[k++] = (uint8_t)(variant & 1);             // root kind
     out[k++] = (uint8_t)((variant >> 1) % 5);      // depth selector -> kDepths[]
+    out[k++] = 0;                                  // bytes taken verbatim
     out[k++] = (uint8_t)(n & 0xff);
     out[k++] = (uint8_t)(n >> 8);
     if (n) memcpy(out + k, doc, n);
